@@ -69,10 +69,10 @@ func c19Filters() []c19Filter {
 	for _, s := range []string{"10.0.0.1", "10.0.0.1-10.0.0.5", "10.0.0.0/24", "::1", "192.168.0.0/16", "fe80::/10", "ff00::/8"} {
 		out = append(out, c19Filter{text: `|= ip("` + s + `")`, neg: `!= ip("` + s + `")`})
 	}
-	for _, m := range [][2]string{{"tags", "a"}, {"tags", `[]`}, {"app", "x"}, {"y", "a"}, {"y", ""}, {"env", "p"}, {"missing", ""}, {"msg", "a"}, {"x", "007"}, {"x", "5.0"}, {"y", "b"}} {
+	for _, m := range [][2]string{{"x", ""}, {"sz", ""}, {"tags", "a"}, {"tags", `[]`}, {"app", "x"}, {"y", "a"}, {"y", ""}, {"env", "p"}, {"missing", ""}, {"msg", "a"}, {"x", "007"}, {"x", "5.0"}, {"y", "b"}} {
 		out = append(out, c19Filter{text: `| ` + m[0] + `="` + m[1] + `"`, neg: `| ` + m[0] + `!="` + m[1] + `"`, pred: m[0] + `="` + m[1] + `"`})
 	}
-	for _, m := range [][2]string{{"tags", "a"}, {"tags", ".*a.*"}, {"app", "x|y"}, {"y", "a.*"}, {"y", ".*"}, {"env", ".+"}, {"x", "\\\\d+"}, {"x", "0.*|1e1"}} {
+	for _, m := range [][2]string{{"y", "a.+"}, {"y", ".+"}, {"msg", "a.*"}, {"tags", "a"}, {"tags", ".*a.*"}, {"app", "x|y"}, {"y", "a.*"}, {"y", ".*"}, {"env", ".+"}, {"x", "\\\\d+"}, {"x", "0.*|1e1"}} {
 		out = append(out, c19Filter{text: `| ` + m[0] + `=~"` + m[1] + `"`, neg: `| ` + m[0] + `!~"` + m[1] + `"`, pred: m[0] + `=~"` + m[1] + `"`})
 	}
 	// the negated matchers as predicates of their own (operands of and / or, also on the label of the other operand)
